@@ -1,0 +1,21 @@
+//go:build verif
+
+package ast
+
+// VerifLexRead, when set, is called for every rune the lexer reads.
+var VerifLexRead func()
+
+// VerifYield, when set, is called at points where parser state is shared.
+var VerifYield func(site string)
+
+func verifLexRead() {
+	if VerifLexRead != nil {
+		VerifLexRead()
+	}
+}
+
+func verifYield(site string) {
+	if VerifYield != nil {
+		VerifYield(site)
+	}
+}
